@@ -8,6 +8,7 @@ import (
 	"math"
 	"os"
 	"os/exec"
+	"regexp"
 	"strings"
 	"time"
 
@@ -136,7 +137,9 @@ func c10Worker(args []string) {
 			}
 			root, _ := hex.DecodeString(strings.TrimSpace(parts[0]))
 			bs, _ := hex.DecodeString(strings.TrimSpace(parts[1]))
-			fmt.Fprintf(out, "BEGIN\t%d\n", i)
+			// records start with \x1e on a fresh line: the library itself prints to stdout
+			// ("expression error: ..." without a newline), which must not corrupt the protocol
+			fmt.Fprintf(out, "\n\x1eBEGIN\t%d\n", i)
 			out.Flush()
 			r := func() (r string) {
 				defer func() {
@@ -146,7 +149,7 @@ func c10Worker(args []string) {
 				}()
 				return c10Pipeline(bs, root)
 			}()
-			fmt.Fprintf(out, "END\t%d\t%s\n", i, strings.ReplaceAll(r, "\n", " "))
+			fmt.Fprintf(out, "\n\x1eEND\t%d\t%s\n", i, strings.ReplaceAll(r, "\n", " "))
 			out.Flush()
 		}
 		i++
@@ -404,7 +407,10 @@ func runC10(res *Result, rng *RNG, tier string, outDir string) {
 	for from < len(inputs) {
 		cmd := exec.Command(self, "worker", "c10", inFile, fmt.Sprint(from))
 		outB, _ := cmd.CombinedOutput()
-		lines := strings.Split(string(outB), "\n")
+		var lines []string
+		for _, rec := range strings.Split(string(outB), "\x1e")[1:] {
+			lines = append(lines, strings.SplitN(rec, "\n", 2)[0])
+		}
 		began := -1
 		for _, l := range lines {
 			parts := strings.SplitN(l, "\t", 3)
@@ -521,6 +527,153 @@ func c10Case(in advToken, r string) string {
 			query = "(Some (OErr " + strings.TrimPrefix(s, "query:err:") + "))"
 		}
 	}
-	return fmt.Sprintf("{| pc_bytes := %s; pc_root := %s; pc_unmarshal := %s; pc_verify := %s; pc_verdict := %s; pc_world := %s; pc_query := %s |}",
-		coqBytes(in.Bytes), coqBytes(in.Root), um, ver, verdict, world, query)
+	// regular expressions: the model takes Go's answers from a table.  For a token that applies
+	// the regex operator the table holds every (pattern, subject) pair over the strings the token
+	// mentions; when a pattern or subject can also be COMPUTED (string concatenation) the table
+	// cannot be complete and the evaluation outcome is not compared for that token.
+	rx := "[]"
+	if hasRegex, hasConcat, strs := c10RegexInfo(in.Bytes); hasRegex {
+		if hasConcat || len(strs) > 40 {
+			verdict, world, query = "None", "[]", "None"
+		} else {
+			var items []string
+			for _, p := range strs {
+				re, err := regexp.Compile(p)
+				for _, sj := range strs {
+					ans := "None"
+					if err == nil {
+						ans = "(Some " + coqBool(re.MatchString(sj)) + ")"
+					}
+					items = append(items, fmt.Sprintf("(%s, %s, %s)", coqStr(p), coqStr(sj), ans))
+				}
+			}
+			rx = coqList(items)
+		}
+	}
+	return fmt.Sprintf("{| pc_bytes := %s; pc_root := %s; pc_unmarshal := %s; pc_verify := %s; pc_verdict := %s; pc_world := %s; pc_query := %s; pc_rx := %s |}",
+		coqBytes(in.Bytes), coqBytes(in.Root), um, ver, verdict, world, query, rx)
+}
+
+// c10RegexInfo decodes the token with protobuf only and reports whether some expression applies
+// the regex operator, whether some expression adds (concatenates) values, and the strings the
+// token's String terms resolve to (published defaults, cumulative block tables, the placeholder
+// of an out-of-range index), plus the strings of the authorizer panel.
+func c10RegexInfo(bs []byte) (hasRegex, hasConcat bool, strs []string) {
+	var c pb.Biscuit
+	if proto.Unmarshal(bs, &c) != nil || c.Authority == nil {
+		return
+	}
+	seen := map[string]bool{}
+	add := func(s string) {
+		if !seen[s] {
+			seen[s] = true
+			strs = append(strs, s)
+		}
+	}
+	for _, s := range []string{"read", "file1"} {
+		add(s)
+	}
+	var syms []string
+	resolve := func(i uint64) string {
+		if i < 1024 {
+			if int(i) < len(publishedDefaults) {
+				return publishedDefaults[i]
+			}
+			return fmt.Sprintf("<invalid symbol %d>", i)
+		}
+		if i-1024 < uint64(len(syms)) {
+			return syms[i-1024]
+		}
+		return fmt.Sprintf("<invalid symbol %d>", i)
+	}
+	var term func(t *pb.TermV2)
+	term = func(t *pb.TermV2) {
+		if t == nil {
+			return
+		}
+		switch x := t.Content.(type) {
+		case *pb.TermV2_String_:
+			add(resolve(x.String_))
+		case *pb.TermV2_Set:
+			if x.Set != nil {
+				for _, e := range x.Set.Set {
+					term(e)
+				}
+			}
+		}
+	}
+	pred := func(p *pb.PredicateV2) {
+		if p != nil {
+			for _, t := range p.Terms {
+				term(t)
+			}
+		}
+	}
+	rule := func(r *pb.RuleV2) {
+		if r == nil {
+			return
+		}
+		pred(r.Head)
+		for _, b := range r.Body {
+			pred(b)
+		}
+		for _, e := range r.Expressions {
+			if e == nil {
+				continue
+			}
+			for _, op := range e.Ops {
+				if op == nil {
+					continue
+				}
+				switch x := op.Content.(type) {
+				case *pb.Op_Value:
+					term(x.Value)
+				case *pb.Op_Binary:
+					if x.Binary != nil && x.Binary.Kind != nil {
+						switch *x.Binary.Kind {
+						case pb.OpBinary_Regex:
+							hasRegex = true
+						case pb.OpBinary_Add:
+							hasConcat = true
+						}
+					}
+				}
+			}
+		}
+	}
+	for _, sb := range append([]*pb.SignedBlock{c.Authority}, c.Blocks...) {
+		if sb == nil {
+			continue
+		}
+		var b pb.Block
+		if proto.Unmarshal(sb.Block, &b) != nil {
+			continue
+		}
+		syms = append(syms, b.Symbols...)
+	}
+	for _, sb := range append([]*pb.SignedBlock{c.Authority}, c.Blocks...) {
+		if sb == nil {
+			continue
+		}
+		var b pb.Block
+		if proto.Unmarshal(sb.Block, &b) != nil {
+			continue
+		}
+		for _, f := range b.FactsV2 {
+			if f != nil {
+				pred(f.Predicate)
+			}
+		}
+		for _, r := range b.RulesV2 {
+			rule(r)
+		}
+		for _, ch := range b.ChecksV2 {
+			if ch != nil {
+				for _, q := range ch.Queries {
+					rule(q)
+				}
+			}
+		}
+	}
+	return
 }
